@@ -50,6 +50,7 @@ pub struct Inner {
 	pub max_live: usize,
 	/// which notify error the injected failures carry (see `injected_error`)
 	pub err_kind: u8,
+	pub callback_panics: usize,
 }
 
 #[derive(Clone, Default)]
@@ -114,11 +115,23 @@ impl MockWorld {
 		};
 		match h {
 			Some(h) => {
-				h.lock().unwrap().handle_event(ev);
+				// like a real watcher, call the handler from a thread of our own, outside any async runtime
+				let r = std::thread::spawn(move || {
+					h.lock().unwrap_or_else(std::sync::PoisonError::into_inner).handle_event(ev);
+				})
+				.join();
+				if r.is_err() {
+					self.0.lock().unwrap().callback_panics += 1;
+				}
 				true
 			}
 			None => false,
 		}
+	}
+
+	/// how often the event handler (the production callback) panicked when called from the watcher's thread
+	pub fn callback_panics(&self) -> usize {
+		self.0.lock().unwrap().callback_panics
 	}
 
 	fn pre_call(&self) {
